@@ -161,6 +161,11 @@ static inline int sline_newdata(struct sline *sl, const char *data, int len)
     if (len > sline_avail(sl) - 1)
         len = sline_avail(sl) - 1;
 
+    // a negative length (from the caller, or the limit of an empty buffer)
+    // inserts nothing; it must not reach memmove / memcpy as a size_t
+    if (len < 0)
+        len = 0;
+
     if (sl->cursor != sl->len)
     {
         memmove(sl->buf + sl->cursor + len,
